@@ -705,6 +705,9 @@ def run_only(exe, script, path, backend):
     return il, oc
 
 
+RANK_KEY = "array-general-rank-gt-indexdim-rind-oob"
+PROBE_RANK = ["zone 1 3", "grid -", "sol Sol0 v 1,1",
+              "w array:Sol0 A general t=r8 sdims=2,2,2 rlo=1,0,0 s=0:1,1:2,1:2 m=8;1:8 100"]
 WITNESS_LO = ["node W i4 5 10", "r W s=1:5:2 m=3;1:3:1 100", "r W s=2:3:4 m=1;1:1:1 100"]
 WITNESS_SHORTCUT = (["zone 1 3", "grid -", "reopen"],
                     ["w coord CoordinateX general t=r8 sdims=3 rlo=0 s=1:3 m=3;1:3 7",
@@ -756,6 +759,15 @@ def run(ck):
         "script": WITNESS_SHORTCUT[1][1:], "observed": il[-4:],
         "note": "a read of 101..103 on a 3-element array is accepted (extents equal the stored extents); the same write is "
                 "rejected; documented in cgns_internals.c as backward compatibility, exercised by test_general_rind"}
+
+    # ---- side finding, dormant until the lead lists its key (it lies outside the generated domain, which keeps the rank of
+    # arrays under rind-bearing parents equal to the index dimension): cg_array_general_write / _read index
+    # rind_planes[2*n] for n < array rank, but the parent's rind_planes has only 2*IndexDimension entries
+    if ck.known_match(RANK_KEY):
+        il, oc = run_only(mid, PROBE_RANK, os.path.join(ck.work, "rk.cgns"), "adf")
+        ck.extra["rank_gt_indexdim_probe"] = {"outcome": oc, "lines": il[-2:]}
+        if oc != "ok":
+            ck.finding(RANK_KEY, {"level": "mid", "backend": "adf", "script": PROBE_RANK, "outcome": oc})
 
     # ---- corpus
     cdir = os.path.join(vlib.ROOT, "corpus", "C05")
